@@ -127,9 +127,12 @@ def extract(name, spec=None):
             if os.path.exists(tmp):
                 os.unlink(tmp)
             msg = (r.stderr or "") + (r.stdout or "")
+            # keep every diagnostic line that names an error (they carry the location) plus the tail of the output
+            errs = "\n".join(ln for ln in msg.splitlines() if ": error: " in ln or ": fatal error: " in ln)
+            msg = (errs + "\n--- tail of the compiler output ---\n" + msg[-5000:]) if errs else msg[-6000:]
             with open(err, "w") as fh:
-                fh.write(msg[-6000:])
-            raise ExtractError(name, msg[-6000:])
+                fh.write(msg)
+            raise ExtractError(name, msg)
         with open(os.path.join(d, name + ".time"), "w") as fh:
             fh.write("%.2f" % (time.time() - t0))
         os.rename(tmp, out)
